@@ -22,7 +22,7 @@ REGISTRY = {}
 
 class Obligation(object):
     def __init__(self, id, prop, fn, targets=(), assumptions=(), bounded=None, desc='',
-                 kind='vc', max_paths=20000, finite=None, replay=True):
+                 kind='vc', max_paths=20000, finite=None, replay=True, thorough_only=False):
         self.id = id
         self.prop = prop
         self.fn = fn
@@ -34,6 +34,7 @@ class Obligation(object):
         self.max_paths = max_paths
         self.finite = finite
         self.replay = replay            # False: inputs cannot be rebuilt natively (callee models observe the run)
+        self.thorough_only = thorough_only
 
 
 def obligation(id, prop=None, **kw):
@@ -70,6 +71,8 @@ class Outcome(object):
 
 class Ctx(object):
     """What an obligation body sees; the same body runs in symbolic mode and in replay mode."""
+
+    thorough = False                # set per run: the thorough tier widens the bounded universes
 
     def __init__(self, core, interp):
         self.core = core
@@ -247,6 +250,7 @@ def run_obligation(ob_id, opts):
     """Runs one obligation in the current process; returns a JSON-able result dict."""
     ob = REGISTRY[ob_id]
     timeout_ms = opts.get('timeout_ms', 10000)
+    Ctx.thorough = opts.get('tier') == 'thorough'
     known = opts.get('known', {})       # finding id -> entry (open findings only)
     seed = opts.get('seed', 0)
     z3.set_param('smt.random_seed', seed % (2 ** 31))
